@@ -18,7 +18,7 @@ import ast
 import z3
 
 from pyvc.engine import (Ctx, PyObj, Model, Namespace, Obj, run_function, find_function, Env, Undecided, PyRaise, LoopSpec, SeqList,
-                         SymList, Opaque, unparse, StrFormat, ExcValue)
+                         SymList, Opaque, unparse, StrFormat, ExcValue, Closure)
 from pyvc.values import Sym, And, Or, Not, Implies, ite, NaN, NaNType
 from pyvc import lib
 from contracts.models import flatten_str
@@ -458,13 +458,123 @@ def t_read_back(ctx):
     ctx.oblige("post", "read_back.no_table_gives_an_empty_list", none.kind == 'return' and none.value == [])
 
 
+# ---------------------------------------------------------------------------
+# writeDB
+# ---------------------------------------------------------------------------
+
+class RowVal(PyObj):
+    """the list returned by source.as_list(): attribute values in `names` order"""
+    typename = 'list'
+
+    def __init__(self, ci, k, n):
+        self.ci, self.k, self.n = ci, k, n
+
+    def iter_(self, ctx):
+        return [Sym(ATTR(z3.IntVal(self.ci), Sym.lift(self.k), z3.IntVal(j)), True) for j in range(self.n)]
+
+    def len_(self, ctx):
+        return self.n
+
+    def binop_(self, ctx, op, other, swapped):
+        if op == 'Eq' and not isinstance(other, (list, RowVal)):
+            return False          # a list never equals a number
+        if op == 'NotEq' and not isinstance(other, (list, RowVal)):
+            return True
+        return NotImplemented
+
+
+def t_write_db(ctx):
+    CL = ['ComponentSource', 'IslandSource', 'SimpleSource']
+    names = {c: class_names(c) for c in CL}
+    present = [ctx.free_branch() for _ in range(3)]
+    lists = []
+    for ci, c in enumerate(CL):
+        n = Sym(z3.Int('n_' + c))
+        ctx.assume(n >= 1 if present[ci] else n == 0)
+
+        def item(k, ci=ci, c=c):
+            o = Obj(c, names=names[c])
+            for j, nm in enumerate(names[c]):
+                o.fields[nm] = Sym(ATTR(z3.IntVal(ci), Sym.lift(k), z3.IntVal(j)), True)
+            o.methods['as_list'] = lambda c2, s, ci=ci, k=k, c=c: RowVal(ci, k, len(names[c]))
+            return o
+        lists.append(SeqList(ctx, n, item) if present[ci] else [])
+    ex, many = [], []
+    db = Obj('cursor')
+    db.methods['execute'] = lambda c, s, stmt, *a: (ex.append((stmt, a)), Obj('result', fetchall=None))[1]
+    db.methods['executemany'] = lambda c, s, stmt, data: many.append((stmt, data))
+    res = Obj('result')
+    res.methods['fetchall'] = lambda c, s: []
+    db.methods['execute'] = lambda c, s, stmt, *a: (ex.append((stmt, a)), res)[1]
+    conn = Obj('connection')
+    conn.methods['cursor'] = lambda c, s: db
+    conn.methods['commit'] = lambda c, s: ex.append(('COMMIT', ()))
+    conn.methods['close'] = lambda c, s: None
+    g = {'classify_catalog': Model(lambda c, cat: tuple(lists), 'classify_catalog'), 'log': Namespace('log'),
+         'os': Namespace('os', path=Namespace('path', exists=Model(lambda c, f: False)), remove=Model(lambda c, f: None)),
+         'sqlite3': Namespace('sqlite3', connect=Model(lambda c, f: conn)),
+         'np': lib.std_np(int64=Namespace('int64'), int32=Namespace('int32'), float64=Namespace('float64'), float32=Namespace('float32'))}
+    ctx.interp.inline.update(['sqlTypes', 'nulls'])
+    from pyvc.engine import Closure
+    g['nulls'] = None
+    del g['nulls']
+    fn_nulls = find_function(CFILE, 'nulls')
+    out = None
+    env_g = g
+
+    def run():
+        menv_holder = {}
+        return run_function(ctx, CFILE, 'writeDB', ['cat.db', Opaque('catalog')], kwargs={'meta': {'PROGRAM': 'x'}}, globals_=env_g)
+    # `nulls` is a module-level helper of catalogs.py: give the interpreter its real body
+    from pyvc.engine import Env as _Env
+    helper_env = _Env(dict(g))
+    g['nulls'] = Closure(fn_nulls, helper_env, CFILE, 'nulls')
+    out = run()
+    if out.kind != 'return':
+        ctx.oblige("safe", "db.no_exception", False)
+        return
+    ctx.oblige("post", "db.one_insert_per_present_class_and_a_commit", len(many) == sum(present) and ('COMMIT', ()) in ex)
+    it = iter(many)
+    tabs = ['components', 'islands', 'simples']
+    for ci, c in enumerate(CL):
+        if not present[ci]:
+            continue
+        m = next(it, None)
+        if m is None:
+            break
+        stmt, data = m
+        want = 'INSERT INTO {0} ({1}) VALUES ({2})'.format(tabs[ci], ','.join(names[c]), ','.join('?' for _ in names[c]))
+        ctx.oblige("post", "db.insert_statement_names_the_class_columns_in_order", stmt == want)
+        created = [e[0] for e in ex if isinstance(e[0], str) and e[0].startswith('CREATE TABLE ' + tabs[ci] + ' ')]
+        ctx.oblige("post", "db.table_is_created_with_one_column_per_name",
+                   len(created) == 1 and [p.split(' ')[0] for p in created[0][created[0].index('(') + 1:-1].split(',')] == names[c])
+        k = Sym(z3.Int('row'))
+        ctx.assume(And(k >= 0, k < lists[ci].len_(ctx)))
+        if not isinstance(data, SeqList):
+            ctx.oblige("post", "db.row_k_holds_the_attributes_of_source_k", False)
+            continue
+        row = data.at(k)
+        if isinstance(row, RowVal):
+            ok = row.ci == ci and (row.k is k or Sym.lift(row.k).eq(k.e))
+            ctx.oblige("post", "db.row_k_holds_the_attributes_of_source_k",
+                       And(Sym(Sym.lift(data.len_(ctx)) == Sym.lift(lists[ci].len_(ctx))), ok))
+        elif isinstance(row, list) and len(row) == len(names[c]):
+            goods = [(v == Sym(ATTR(z3.IntVal(ci), k.e, z3.IntVal(j)), True)) if isinstance(v, Sym) else False for j, v in enumerate(row)]
+            ctx.oblige("post", "db.row_k_holds_the_attributes_of_source_k", And(*goods) if all(g_ is not False for g_ in goods) else False)
+        else:
+            ctx.oblige("post", "db.row_k_holds_the_attributes_of_source_k", False)
+
+
 def verify(S):
-    targets = [("models.classify_catalog", t_classify), ("catalogs.write_catalog", t_write_catalog), ("catalogs.save_catalog", t_dispatch),
+    targets = [("catalogs.writeDB", t_write_db),
+               ("models.classify_catalog", t_classify), ("catalogs.write_catalog", t_write_catalog), ("catalogs.save_catalog", t_dispatch),
                ("catalogs.writeFITSTable", t_fits_types), ("catalogs.table_to_source_list", t_read_back)]
     for name, fn in targets:
         if S.only and S.only not in name:
             continue
         ctx = Ctx(S, name)
+        if fn is t_write_db:
+            ctx.max_paths = 300       # the real code has 8 paths; a per-value conversion would branch 2^27 times
         try:
             ctx.explore(fn)
         except Undecided as u:
